@@ -724,8 +724,12 @@ class Exec:
                 return pay[idx]
             if isinstance(e, OpaqueV):
                 return self.ctx.fresh_of_type(f"{e.name}.{vname}.{idx}", ty)
+        if isinstance(val, IntV) and idx == 0 and val.ty in ("U256", "U512", "U128"):
+            # numext value modelled as one integer: `.0` is the little-endian array of u64 limbs
+            n = {"U128": 2, "U256": 4, "U512": 8}[val.ty]
+            return ListV(tuple(IntV(T.emod(T.ediv(val.t, 1 << (64 * i)), 1 << 64), "u64") for i in range(n)), "[u64; %d]" % n)
         if isinstance(val, IntV) and idx == 0:
-            # newtype around an integer modelled directly (e.g. U256(pub [u64;4]) is never projected)
+            # newtype around an integer modelled directly
             return val
         raise Unsupported(f"field access .{idx} on {type(val).__name__} {val}")
 
